@@ -157,5 +157,5 @@ func vC01Big(strLens, dataLens, listLens []int) {
 
 func VerifC01_BigQuick()    { vC01Big([]int{255, 256, 65535}, []int{255, 256, 65536}, []int{16, 17, 300}) }
 func VerifC01_BigThorough() {
-	vC01Big([]int{127, 128, 255, 256, 257, 65534, 65535}, []int{255, 256, 65535, 65536, 1 << 17}, []int{15, 16, 17, 255, 256, 4096})
+	vC01Big([]int{127, 128, 255, 256, 257, 65534, 65535}, []int{255, 256, 65535, 65536}, []int{15, 16, 17, 255, 256})
 }
